@@ -70,6 +70,27 @@ def _queue_decl(call):
     return (src, cap)
 
 
+SEM_CTORS = {'threading.Semaphore': 1, 'threading.BoundedSemaphore': 1, 'threading.Lock': 1, 'Semaphore': 1, 'BoundedSemaphore': 1, 'Lock': 1}
+
+
+def _sync_decl(prog, name, call):
+    """x = threading.Semaphore(v) / BoundedSemaphore(v) / Lock() / Event(): declares the primitive, returns True if it was one"""
+    src = ast.unparse(call.func)
+    if src in SEM_CTORS:
+        init = SEM_CTORS[src]
+        args = list(call.args) + [kw.value for kw in call.keywords if kw.arg == 'value']
+        if args and 'Lock' not in src:
+            init = args[0].value if isinstance(args[0], ast.Constant) and isinstance(args[0].value, int) else args[0]
+        prog.sems[name] = init
+        prog.vars[name + '.cnt'] = ('int', init)
+        return True
+    if src in ('threading.Event', 'Event') and not call.args and not call.keywords:
+        prog.events.add(name)
+        prog.vars[name + '.set'] = ('bool', False)
+        return True
+    return False
+
+
 def build_stp(QC):
     fn, path = _source_of('single_thread_prefetch')
     prog = cfg.Prog()
@@ -89,6 +110,8 @@ def build_stp(QC):
                 continue
             if src == 'object':
                 tokens[name] = cfg.SENT
+                continue
+            if _sync_decl(prog, name, s.value):
                 continue
             if src in ('threading.Thread', 'Thread'):
                 # Thread(group=None, target=None, name=None, args=(), kwargs=None, *, daemon=None)
@@ -201,6 +224,9 @@ def build_lpm(backend, QC, N):
             continue
         if isinstance(s, ast.If) and 'ensure_single_thread_numeric' in ast.unparse(s):
             continue   # environment guard: precondition of the check (OMP_NUM_THREADS=MKL_NUM_THREADS=1)
+        if isinstance(s, ast.Assign) and isinstance(s.value, ast.Call) and len(s.targets) == 1 and isinstance(s.targets[0], ast.Name) \
+                and _sync_decl(prog, s.targets[0].id, s.value):
+            continue
         main2.append(s)
     pool_kind = POOL_KIND[backend]
     c = cfg.Compiler(prog, '$main', params, QC, adapters=adapters, ntasks=N, pool_kind=pool_kind)
@@ -212,6 +238,7 @@ def build_lpm(backend, QC, N):
     c.declare('$sub', 'int', 0)
     c.declare('$deq', 'int', 0)
     c.declare('$started', 'int', 0)
+    c.declare('$detached', 'bool', False)
     c.prescan(main2)
     entry = c.block(main2, END, ctx)
     sysm = System()
@@ -302,7 +329,10 @@ def encode(sysm, bd, mode):
     St = [mk(k) for k in range(K + 1)]
     S0 = St[0]
     for v, (typ, init) in prog.vars.items():
-        s.add(S0[v] == (z3.BoolVal(init) if typ == 'bool' else IV(init)))
+        if isinstance(init, ast.AST):
+            s.add(S0[v] == c.ev(init, dict(consts)))          # e.g. threading.Semaphore(buffer_size)
+        else:
+            s.add(S0[v] == (z3.BoolVal(init) if typ == 'bool' else IV(init)))
     for q in prog.queues:
         s.add(S0[q + '.len'] == 0)
     for th in threads:
